@@ -197,6 +197,16 @@ def metropolis2 (gq : Rat → Rat → Rat → Rat) (pdf : Rat → Rat → Rat) (
     | none => cand2 u01 gq s1 s2 g (0, 0)
   metroLoop (metroStep2 u01 (cand2 u01 gq s1 s2) pdf dom) burn thin (burn + thin * sample) 0 x0.1 x0.2 []
 
+/-! ### Inverse_Transform_Sampling -/
+
+/-- the accuracy handed to `Find_Root`: `1e-10 * (xMax - xMin)` — relative to the WIDTH of the domain -/
+def itransTol (xMin xMax : Rat) : Rat := (1 / 10 ^ 10) * (xMax - xMin)
+
+/-- `Inverse_Transform_Sampling(cdf, xMin, xMax, PRNG)`: one uniform `xi`, then the root of `xi - cdf(x)`
+    on `[xMin,xMax]` to accuracy `itransTol`; the root finder (C02) is a parameter. -/
+def inverseTransform (findRoot : (Rat → Rat) → Rat → Rat → Rat → Rat) (cdf : Rat → Rat) (g : G) (xMin xMax : Rat) : Rat × G :=
+  (findRoot (fun x => (sampleUniform u01 g 0 1).1 - cdf x) xMin xMax (itransTol xMin xMax), (sampleUniform u01 g 0 1).2)
+
 end Generic
 
 /-! ## Driver side: rational test densities shared with harness/c18.cpp, replay with recorded candidates -/
